@@ -98,6 +98,11 @@ def mac_kdf_cases(rng, tier):
         for ol in (0, 1, 31, 32, 33, 63, 64, 65, 100) + (() if quick else (255, 256, 257, 1000)):
             for il in (0, 1, 20, 51, 52, 59, 60, 61, 130) if not quick or ol in (0, 1, 33, 64, 100) else (20, 52):
                 out.append("%s %s %d" % (f, hx(pat(il, 10)), ol))
+        # more than 255 / 256 blocks: the block counter leaves its low byte
+        out.append("%s %s %d" % (f, hx(pat(20, 10)), 32 * 256 + 40))
+        if not quick:
+            out.append("%s %s %d" % (f, hx(pat(3, 10)), 32 * 255 + 1))
+            out.append("%s %s %d" % (f, hx(pat(3, 10)), 32 * 257))
     return out
 
 
